@@ -345,6 +345,7 @@ class Ctx:
         self.failures = []
         self.tq = ck.rng.randrange(len(TARGETED)) if hasattr(ck.rng, "randrange") else 0
         self.dist["targeted"] = {}
+        self.force = []
 
 
 def run_ops(cx, script, cwd, timeout=300):
@@ -802,9 +803,14 @@ def do_diff(cx, world, idx, scen, outs, impl, thorough):
             cx.failures.append({"kind": "correspondence", "world": idx, "scenario": "cgnsdiff (file, copy) %s->%s" % (be, y),
                                 "first_difference": vlib.first_divergence(pred, out)})
         # (file, one elementary edit of the copy): must report
-        for e_i in range(5 if thorough else 3):
-            if e_i < (3 if thorough else 2):                  # aimed edits in rotation over the whole run, then random ones
-                spec = TARGETED[cx.tq % len(TARGETED)]; cx.tq += 1
+        forced, cx.force = list(cx.force), []
+        n_aimed = len(forced) or (3 if thorough else 2)
+        for e_i in range(n_aimed + (0 if forced else (2 if thorough else 1))):
+            if e_i < n_aimed:                                 # aimed edits in rotation over the whole run, then random ones
+                if forced:
+                    spec = forced[e_i]
+                else:
+                    spec = TARGETED[cx.tq % len(TARGETED)]; cx.tq += 1
                 ed = targeted_edit(spec, copy_tree)
                 cx.dist["targeted"][spec] = cx.dist["targeted"].get(spec, 0) + (1 if ed else 0)
             else:
@@ -1125,6 +1131,11 @@ def run(ck, pid="C09"):
         do_world(cx, w, i, thorough)
         if sum(1 for f in cx.failures if f["kind"] == "property") >= 3:
             break
+    # every aimed edit at least once per run: the ones the rotation did not reach, on a small cross-format pair
+    missing = [t for t in TARGETED if not cx.dist["targeted"].get(t)]
+    if missing and sum(1 for f in cx.failures if f["kind"] == "property") < 3:
+        cx.force = missing
+        do_world(cx, gen_world(ck.rng, "adf", "wq", {"nolinks": True, "size": 6}), n, thorough, only=[("copyfile_r", "hdf5", 1)])
     props = [f for f in cx.failures if f["kind"] == "property"]
     corr = [f for f in cx.failures if f["kind"] == "correspondence"]
     for f in props[:3]:
